@@ -49,4 +49,8 @@ def run(ctx):
                     bound="literals of 66..73 bytes", expect_reach=["P2.handoff"]))
     # read side: the numeric accessors expose tag/value/flags exactly (shared with C12)
     ls += [l for l in C12.lemmas(ctx.tier) if l.name.startswith("T2.")]
+    # ... and through every way of reaching a number: each walker reports the number's type (Type(), the walker's return value) and
+    # payload at every position of the tape, including a number that is the last entry of an element iterator's tape (T1, shared with C02)
+    from . import C02
+    ls += [l for l in C02.t1_lemmas(ctx.tier, sizes=(range(4, 8) if ctx.tier == "quick" else None)) if ".AdvanceInto." not in l.name]
     run_lemmas(ctx, ls)
